@@ -678,6 +678,11 @@ class ResetInserter(_ControlInserter):
     def _insert_control(self, fragment, domain, lhs_masks):
         stmts = []
         for signal, start, stop in lhs_masks.chunks():
+            if isinstance(signal, (ClockSignal, ResetSignal)):
+                # Control inserters are applied before late bound signals are resolved. The clock and
+                # reset signals of a clock domain are resettable, with an initial value of 0.
+                stmts.append(signal.eq(0))
+                continue
             if signal.reset_less:
                 continue
             if start == 0 and stop is None:
